@@ -246,6 +246,22 @@ class Run:
         res["axioms"] = ax
         if r.returncode and not res["broken"]:
             raise CheckBroken("axiom audit failed:\n" + txt[-3000:])
+        # the toolchain's independent re-checker replays the compiled property modules through the kernel (3-6 s per module)
+        if not res["broken"]:
+            rechecked = []
+            for m in modules:
+                if ".Props." not in m:
+                    continue
+                with self.lean_lock():
+                    rc = sh(["lake", "env", "leanchecker", m], cwd=LEAN)
+                if rc.returncode:
+                    res["broken"] = list(theorems)
+                    res["discharged"] = 0
+                    res["log"] = ("leanchecker rejected %s:\n" % m) + rc.stdout[-3000:]
+                    break
+                rechecked.append(m)
+            res["leanchecker"] = rechecked
+            self.rechecked = sorted(set(getattr(self, "rechecked", [])) | set(rechecked))
         return res
 
     def grep_forbidden(self):
@@ -293,6 +309,7 @@ class Run:
         cov = dict(coverage)
         cov["known_findings_matched"] = [k for k, _ in self.known]
         cov["notes"] = self.notes
+        cov["leanchecker_rechecked"] = getattr(self, "rechecked", [])
         ev = dict(property_id=self.prop, tier=self.tier, seed=self.seed, level=level,
                   coverage=cov, assumptions=assumptions,
                   wall_s=round(time.time() - self.t0, 2), violations=len(self.violations))
